@@ -6780,7 +6780,7 @@ FileReady_setFRQ(FileReady self, uint8_t frq)
 bool
 FileReady_isPositive(FileReady self)
 {
-    return ((self->frq & 0x80) == 0x80);
+    return ((self->frq & 0x80) == 0);
 }
 
 uint16_t
